@@ -85,7 +85,7 @@ def _series(u, n, i, j, by_name, w):
          pre=["0 <= u <= 4", "1 <= n", "0 <= i", "0 <= j", "i != j", "1 <= w <= 2",
               "i < (2, 3, 4, 3, 2)[u] and j < (2, 3, 4, 3, 2)[u]"],
          tiers={"quick": {"timeout": 170, "pre": ["n <= 3", "w == 1 or u == 4", "by_name == True or u == 0 or u == 4"], "parts": parts_over("u", range(5))},
-                "thorough": {"timeout": 1500, "pre": ["n <= 6"], "parts": parts_product(parts_over("u", range(5)), parts_over("i", range(4)))}},
+                "thorough": {"timeout": 600, "pre": ["n <= 6"], "parts": [(f"u{u}_i{i}_n{n}", f"u == {u} and i == {i} and n == {n}") for u, cnt in enumerate((2, 3, 4, 3, 2)) for i in range(cnt) for n in range(1, 7)]}},
          sample=(2, 3, 0, 2, True, 1),
          bounds="nser n in 1..3 (quick) / 1..6 (thorough); unit cells: R, 3-terminal resistor, Mos, external module, a module with a bus port and a bundle port; every ordered pair of distinct scalar unit ports as the series pair; given by name or by Signal",
          generalises="n (symbolic through Series.func, the instance array and slice resolution); port-pair selectors", outside="n > 6; series ports wider than one bit")
